@@ -247,6 +247,17 @@ func checkC11(c c11Case) (ci caseInfo, err error) {
 					fills[i].Elem = &model.Elem{T: (op.N+i)%2 == 0}
 				}
 			}
+			if op.C%4 == 2 {
+				// a rename onto the name of the NEXT variable, which is filled (or renamed) in the same call: legal, the name is
+				// free again in the result; whatever the callee notes down while it sorts this out belongs to the result only
+				for i := 0; i+1 < len(fills); i++ {
+					sel := func(k int) bool { return (op.N>>uint(k%16))&1 == 0 }
+					if fills[i].Elem != nil && fills[i+1].Elem != nil && fills[i].Kind == fills[i+1].Kind && sel(i) && sel(i+1) && (op.N>>uint(16+i%8))&1 == 0 {
+						fills[i] = Assign{Name: fills[i].Name, Kind: fills[i].Kind, Rename: fills[i+1].Name}
+						i++
+					}
+				}
+			}
 			fill := map[string]interface{}{}
 			binds := map[string]Assign{}
 			for i, a := range fills {
